@@ -145,7 +145,9 @@ func zzU5() []zzTxDef { // double edge: B spends A:0 and A:1
 
 func zzU6() []zzTxDef { // several credits with a non-credit output in between; debit-only spender
 	return []zzTxDef{
-		{name: "A", ins: []zzIn{{-1, 0}}, nOuts: 3, credits: []int{0, 2}, change: []bool{false, true}},
+		// the LOWER-index credit is the change one (flags must not leak to
+		// the credits after it)
+		{name: "A", ins: []zzIn{{-1, 0}}, nOuts: 3, credits: []int{0, 2}, change: []bool{true, false}},
 		{name: "B", ins: []zzIn{{0, 2}, {-1, 5}}, nOuts: 1, credits: nil, change: nil},
 		{name: "C", ins: []zzIn{{0, 0}}, nOuts: 2, credits: []int{1}, change: []bool{false}},
 	}
